@@ -86,7 +86,7 @@ chk("C01",
     "theorem that once setup has returned an index, the token of EVERY stored keyword is generated and Search returns exactly its list - same "
     "identifiers, same order, no exception, the probe loop terminates - for every configuration the config builder accepts, every key, every "
     "database (no bound on keywords, list lengths, block sizes: the smallest database and every block/level/power-of-two boundary are instances) "
-    "and every randomness tape (Props/C01.lean; proved in full for PiBas, PiPack, PiPtr, Pi2Lev, SSE1, SSE2 - the last two also without any collision hypothesis, address distinctness being derived from C15 -, CT14 - incl. the arithmetic of its greedy power-of-two decomposition -, ANSS16; EDBSetup is proved to return for PiBas/PiPack (every key, database and sufficient tape) and for SSE2 (SSE2.correct: no hypothesis about the run at all - every accepted configuration, key and valid database) and never to raise for CT14, ANSS16, PiPtr, Pi2Lev, SSE1 (array size a power of two, fewer than param_s postings) and DP17 - i.e. for all nine schemes - (the only model failure left is exhausted randomness; for DP17 this includes that the level search finds the first fitting level and that a bucket with room always exists); for DP17 the theorem is partial: no identifier of a stored keyword is missed by a search that returns, while 'does not raise / returns nothing else' rests on AES/HMAC output facts outside the leaf laws and is decided by correspondence + direct oracle). Tie: recorded-oracle correspondence - the real scheme runs "
+    "and every randomness tape (Props/C01.lean; proved in full for PiBas, PiPack, PiPtr, Pi2Lev, SSE1, SSE2 - the last two also without any collision hypothesis, address distinctness being derived from C15 -, CT14 - incl. the arithmetic of its greedy power-of-two decomposition -, ANSS16; EDBSetup is proved to return for PiBas/PiPack (every key, database and sufficient tape) and for SSE2 (SSE2.correct: no hypothesis about the run at all - every accepted configuration, key and valid database) and never to raise for CT14, ANSS16, PiPtr, Pi2Lev, SSE1 (array size a power of two, fewer than param_s postings) and DP17 - i.e. for all nine schemes - (the only model failure left is exhausted randomness; for DP17 this includes that the level search finds the first fitting level and that a bucket with room always exists); for DP17: DP17.search_stored - the search of a stored keyword returns (no KeyError / IndexError: every chunk's table entry decodes to an existing level and bucket) and misses no identifier; 'returns nothing else' is derived from the hypothesis ProbesClean (trial decryption of foreign or dummy cells under this keyword's key is not accepted - an AES output fact outside the leaf laws) which, like 'probes beyond the last chunk miss the table', the driver evaluates on every recorded run; DP17.search_stored_partial is the statement without those two hypotheses). Tie: recorded-oracle correspondence - the real scheme runs "
     "under a recorder (leaves + randomness tape), the Lean driver replays them and must reproduce the key, the index cell by cell, every token "
     "and every result - plus the direct oracle Search(EDBSetup(K,DB),TokenGen(K,w)) == DB[w] on the real code for all nine schemes over "
     "boundary profiles.",
